@@ -9,5 +9,5 @@ CONSTANTS
   StreamNames <- StreamsAll
   PlainNames <- PlainAll
   WholeOnly = TRUE
-INVARIANTS GeneratorValid GoFsRefines GoFsReadRefines GoManRefines PyRefines PyReadRefines UnescapersAgree EscapersRoundTrip
+INVARIANTS GeneratorValid GoFsRefines GoFsReadRefines GoManRefines PyRefines PyReadRefines UnescapersAgree EscapersRoundTrip OldSearchWasWrong OldEscapeWasWrong DoubleBackslashReadings
 CHECK_DEADLOCK FALSE
